@@ -273,6 +273,20 @@ def one_case(run, seed, idx, mods, tier=None):
         if nm != nw or not np.array_equal(fr.pixels["cp_meta"], fr.pixels["connectedpixels"]):
             V("sparseframe:metadata-threshold", "threshold=None (taken from frame.meta) labels differently from the same "
               "explicit threshold (%d vs %d labels)" % (nm, nw))
+        # an explicit threshold wins over the one recorded with the data, whatever its value (0 included): the stored
+        # pixels get small positive integer values, the metadata says 5, and the frame is labelled at 0, 0.0, 3, 5 and 7
+        frx = sparseframe.from_data_mask(stored.astype(np.int8),
+                                         r.integers(1, 10, shape).astype(np.float32), {})
+        frx.meta["intensity"]["threshold"] = 5
+        for tx in (0, 0.0, 3, 5.0, 7):
+            nx = sparseframe.sparse_connected_pixels(frx, label_name="cp_x", threshold=tx)
+            run.count("explicit_vs_recorded_threshold_runs")
+            maskx = np.zeros(shape, bool)
+            maskx[frx.row, frx.col] = frx.pixels["intensity"] > tx
+            densex = np.zeros(shape, np.int64)
+            densex[frx.row, frx.col] = frx.pixels["cp_x"]
+            check_labels(run, V, "sparseframe.sparse_connected_pixels:explicit-threshold-%r-recorded-5" % tx, densex, nx,
+                         maskx, True)
         # splat variant, scratch Z poisoned
         Z = np.full(shape[0] * shape[1] + 2 * shape[0] + 2 * shape[1] + 4, 0x5A5A5A, np.int32)
         sl = np.zeros(fr.nnz, np.int32)
